@@ -2652,3 +2652,28 @@ package sdf
 //@   ensures [inside-means-within-the-circumradius-up-to-epsilon] inside <==> p.Sub(c[0]).Length2() - r2 <= 1e-12
 //@   ensures [done-means-no-later-point-in-x-order-can-be-inside] done ==> q.Sub(c[0]).Length2() > r2
 //@ end
+
+//@ func Center2D
+//@   property C02 C01
+//@   id centred-copy
+//@   forall p v2.Vec
+//@   requires ord2(s.BoundingBox())
+//@   requires forall q v2.Vec :: enc2(s, q)
+//@   let c = s.BoundingBox().Center()
+//@   let d = r.Evaluate(p)
+//@   ensures [the-operand-seen-from-the-point-moved-back-to-its-box-centre] d == s.Evaluate(p.Add(c))
+//@   ensures [and-encloses-the-solid] d < 0 ==> r.BoundingBox().Contains(p)
+//@ end
+
+//@ func CenterAndScale2D
+//@   property C02 C01
+//@   id centred-scaled-copy
+//@   forall p v2.Vec
+//@   requires k > 0
+//@   requires ord2(s.BoundingBox())
+//@   requires forall q v2.Vec :: enc2(s, q)
+//@   let c = s.BoundingBox().Center()
+//@   let d = r.Evaluate(p)
+//@   ensures [the-operand-at-the-unscaled-uncentred-point-with-distance-scaled-back] d == k*s.Evaluate(p.MulScalar(1/k).Add(c))
+//@   ensures [and-the-box-encloses-the-solid] d < 0 ==> r.BoundingBox().Contains(p)
+//@ end
